@@ -30,7 +30,8 @@ def run(tier):
     mcbin = mcdrive.build_mc()
     sd = vlib.scratch_dir()
     # GOMAXPROCS=1: a goroutine that an entry starts cannot finish before it is counted (goroutine check)
-    env = {'VERIF_DEADLINE': str(deadline), 'VERIF_ALPHA': 'full', 'GOMAXPROCS': '1'}
+    # (process A runs 11 h west of UTC, process B 14 h east: every timestamp falls on different calendar days)
+    env = {'VERIF_DEADLINE': str(deadline), 'VERIF_ALPHA': 'full', 'GOMAXPROCS': '1', 'TZ': 'Pacific/Pago_Pago'}
     if tier == 'thorough':
         env['VERIF_C01_PAIRS'] = '1'
     # level 1, process A
